@@ -318,6 +318,14 @@ func mkChunk(kind int, k int, mode int) gen.Chunking {
 	case 2:
 		ch.FaultAt = k
 		ch.FaultWithData = true
+	case 3:
+		// the reader's own error is io.ErrUnexpectedEOF: a failure, not a
+		// clean end of input
+		ch.FaultAt = k
+		ch.FaultErr = "unexpected-eof"
+	}
+	if kind%5 == 4 {
+		ch.Empty = 3 // empty reads in between
 	}
 	return ch
 }
@@ -395,7 +403,7 @@ func TestC11(t *testing.T) {
 						loc := map[string]int64{}
 						for i := w; i < len(ks); i += workers {
 							k := ks[i]
-							for mode := 0; mode < 3; mode++ {
+							for mode := 0; mode < 4; mode++ {
 								c := &faultCase{Streams: []*fitmodel.Stream{p.Stream}, FileTypes: []int{ft}, Chunk: mkChunk(k, k, mode)}
 								if msg, ok := check(rec, c, loc); !ok {
 									rec.Fail("corpus", "", cf.Name+": "+msg, c)
@@ -440,7 +448,7 @@ func TestC11(t *testing.T) {
 			// every offset x {cut, fault, fault with data}
 			cnt := int64(0)
 			for k := 0; k <= total; k++ {
-				for mode := 0; mode < 3; mode++ {
+				for mode := 0; mode < 4; mode++ {
 					c.Chunk = mkChunk(k+mode, k, mode)
 					cnt++
 					if msg, ok := check(rec, c, regions); !ok {
